@@ -446,6 +446,14 @@ def walk(t: Term):
         yield from walk(t.value)
 
 
+def call_name_of(c: 'Call') -> Optional[str]:
+    if isinstance(c.func, Attr):
+        return c.func.name
+    if isinstance(c.func, BoundMethod):
+        return c.func.name
+    return None
+
+
 def _field_key(rec: Term, name: str) -> str:
     return f'@field:{rec!r}.{name}'
 
@@ -1463,6 +1471,22 @@ class Evaluator:
         finally:
             self._loop_depth = before
 
+    def _enum_members_iter(self, it: Term) -> Optional[TupleT]:
+        """the members, in definition order, when `it` is E.__members__.values() / list(E) / E for an enumeration E"""
+        x = it
+        if isinstance(x, Call) and call_name_of(x) == 'values' and not x.args:
+            x = x.func.base if isinstance(x.func, Attr) else None
+            if not (isinstance(x, Attr) and x.name == '__members__'):
+                return None
+            x = x.base
+        elif isinstance(x, Call) and isinstance(x.func, Ext) and x.func.name in ('list', 'tuple', 'iter') and len(x.args) == 1:
+            x = x.args[0]
+        if isinstance(x, ClassRef):
+            ci = self.m.classes.get(x.name)
+            if ci is not None and ci.is_enum and not ci.is_flag and ci.enum_members:
+                return TupleT(tuple(EnumMember(ci.name, n) for n in ci.enum_members), 'tuple')
+        return None
+
     @staticmethod
     def _unfilter(s: ast.For) -> ast.For:
         """`for x in filter(p, xs): B` is `for x in xs: if p(x): B`; `for x in (y for y in xs if c): B` likewise"""
@@ -1484,6 +1508,18 @@ class Evaluator:
             lit = it
             if isinstance(lit, Call) and isinstance(lit.func, Ext) and lit.func.name in ('reversed',) and len(lit.args) == 1 and isinstance(lit.args[0], TupleT):
                 lit = TupleT(tuple(reversed(lit.args[0].items)), lit.args[0].kind)
+            members = self._enum_members_iter(it)
+            if members is not None and len(members.items) <= 48 and not s.orelse and len(s.body) <= 2 \
+                    and not any(isinstance(n, (ast.Return, ast.Break, ast.Continue, ast.For, ast.While, ast.If, ast.Yield, ast.YieldFrom)) for b in s.body for n in ast.walk(b)):
+                # a table built from the members of an enumeration, one straight-line step per member
+                states = [st]
+                for item in members.items:
+                    nxt_: List[_State] = []
+                    for cur in states:
+                        self.assign(s.target, item, cur, mod, fi, depth)
+                        nxt_.extend(self.block(s.body, [cur], mod, fi, depth, outs))
+                    states = nxt_
+                return states
             if isinstance(lit, TupleT) and lit.kind in ('tuple', 'list') and not lit.items and not s.orelse:
                 return [st]     # a loop over an empty literal does nothing
             if isinstance(lit, TupleT) and lit.kind in ('tuple', 'list') and 0 < len(lit.items) <= 8 and not s.orelse \
@@ -2315,6 +2351,21 @@ class Evaluator:
 
     def call(self, e: ast.Call, st: _State, mod, fi, depth) -> Term:
         func = self.expr(e.func, st, mod, fi, depth)
+        if self._loop_depth == 0 and isinstance(e.func, ast.Attribute) and e.func.attr == 'setdefault' and isinstance(e.func.value, ast.Name) \
+                and len(e.args) == 2 and not e.keywords and not any(isinstance(a, ast.Starred) for a in e.args):
+            cur = st.env.get(e.func.value.id)
+            if isinstance(cur, DictT) and all(isinstance(k0, (Const, EnumMember)) for k0, _ in cur.items):
+                # straight-line code: d.setdefault(k, v) with an evident key keeps the first value stored under k
+                k = self.expr(e.args[0], st, mod, fi, depth)
+                v = self.expr(e.args[1], st, mod, fi, depth)
+                if isinstance(k, (Const, EnumMember)):
+                    old_v = next((v0 for k0, v0 in cur.items if k0 == k), None)
+                    if old_v is not None:
+                        return old_v
+                    new_d = DictT(cur.items + ((k, v),))
+                    for name in [n_ for n_, val in st.env.items() if val is cur]:
+                        st.env[name] = new_d
+                    return v
         if self._loop_depth == 0 and isinstance(e.func, ast.Attribute) and e.func.attr in ('append', 'extend') and isinstance(e.func.value, ast.Name) \
                 and len(e.args) == 1 and not e.keywords and not isinstance(e.args[0], ast.Starred):
             cur = st.env.get(e.func.value.id)
